@@ -479,6 +479,80 @@ fn random_regs(rng: &mut Rng) -> Regs16 {
     r
 }
 
+/// (4) contention after paging *histories*: which banks are contended must follow the last accepted
+/// latch value whatever happened before (locking writes, rejected writes after the lock, repeated values)
+fn history_layer(o: &Opts, model: &mut Model, rep: &mut Report, only: Option<&str>) {
+    let mut rng = Rng::new(o.seed ^ 0x0404);
+    let (t0, line) = (14361usize, 228usize);
+    let n = if only.is_some() { 1 } else { o.n(400, 20000) };
+    for h in 0..n {
+        let mut r = rng.fork();
+        let hist: Vec<u8> = match only {
+            Some(t) => t.split(',').filter_map(|x| u8::from_str_radix(x.trim(), 16).ok()).collect(),
+            None => {
+                let len = r.range(1, 6) as usize;
+                (0..len).map(|_| {
+                    let mut v = r.u8() & 0x3F;
+                    if !r.chance(1, 3) {
+                        v &= !0x20;
+                    }
+                    v
+                }).collect()
+            }
+        };
+        let mut e = emu(&Cfg::new(true));
+        let mut lines = vec!["new 128".to_string()];
+        for v in &hist {
+            e.verif_write_io(0x7FFD, *v);
+            lines.push(format!("out {:02x}", v));
+        }
+        // timed cycles in every window at the eight residues of a contended line start
+        let mut obs = vec![];
+        let base = t0 + (10 + (h as usize % 150)) * line;
+        for (k, a) in [0x0000u16, 0x4000, 0x8000, 0xC000, 0xFFFF, 0xC000, 0x4001, 0xE000].iter().enumerate() {
+            let t = base + k * (line + 1);
+            e.verif_set_frame_clocks(t);
+            let _ = e.verif_read_mem(*a, 3);
+            let el = e.verif_frame_clocks() - t;
+            obs.push((lines.len(), t, *a, el, false));
+            lines.push(format!("trace {:x} m{:04x}:3", t, a));
+            let t2 = t + 40;
+            let port = (*a & 0xFF00) | if k % 2 == 0 { 0xFF } else { 0xFE };
+            e.verif_set_frame_clocks(t2);
+            let _ = e.verif_read_io(port);
+            let el2 = e.verif_frame_clocks() - t2;
+            obs.push((lines.len(), t2, port, el2, true));
+            lines.push(format!("trace {:x} i{:04x}", t2, port));
+        }
+        let answers = model.ask_many(&lines);
+        rep.count("cases", "paging history + timed cycles");
+        let hist_text = hist.iter().map(|v| format!("{:02x}", v)).collect::<Vec<_>>().join(",");
+        let locked = hist.iter().any(|v| v & 0x20 != 0);
+        for (i, t, a, el, io) in obs {
+            rep.eval();
+            let mut it = answers[i].split(' ');
+            let m = usize::from_str_radix(it.next().unwrap_or("0"), 16).unwrap_or(usize::MAX);
+            let s = usize::from_str_radix(it.next().unwrap_or("0"), 16).unwrap_or(usize::MAX);
+            if el > if io { 4 } else { 3 } {
+                rep.class(format!("history locked={} win={:x} io={} delay={}", locked, a >> 14, io, el));
+            }
+            if el != s || el != m {
+                rep.violation(Violation {
+                    kind: if el != s { Kind::SpecViolated } else { Kind::ModelMismatch },
+                    key: format!("C04/128k/history/{}/{}win{:x}", if locked { "locked" } else { "unlocked" }, if io { "port-" } else { "" }, a >> 14),
+                    what: format!("128K after paging writes [{}]: {} {:04x} at frame T-state {} took {} T; the contention model (bank paged by the last accepted write) gives {} T",
+                        hist_text, if io { "port cycle" } else { "memory cycle" }, a, t, el, s),
+                    correspondence: "corr.C04.timing-after-paging-history (Model.Machine vs controller.rs)".into(),
+                    case: J::obj(vec![("text", J::s(format!("history {}", hist_text)))]),
+                    implementation: format!("{}", el),
+                    expected: format!("{}", s),
+                });
+                break;
+            }
+        }
+    }
+}
+
 pub fn run(o: &Opts) -> Report {
     let mut rep = Report::new("C04");
     rep.rule = "three layers, each compared with the Lean machine model (exact) and the contention spec (the property's delay \
@@ -487,13 +561,17 @@ write; high byte in every window x bit 0) at every interesting frame T-state (wi
 columns of lines 1 and 191, before/after the picture, frame end wrap, 200 random) on the 48K and on the 128K with every bank \
 0-7 paged at 0xC000; whole instructions (all 1792 encodings plus hand-picked operand variants) executed by the real \
 Z80 in the real Emulator with random placement of code, stack, HL/BC/DE/IX/IY, I in contended/uncontended memory at random \
-interesting T-states, the bus-cycle trace taken from the real Z80 on a recording bus. distinct/non-trivial = distinct \
+interesting T-states, the bus-cycle trace taken from the real Z80 on a recording bus; and timed memory/port cycles in every window after seeded histories of paging writes (locking writes, writes after the lock) on the 128K. distinct/non-trivial = distinct \
 (machine, cycle kind or opcode, delay, T mod 8) among delayed cases".into();
     let mut model = Model::spawn(&o.model, "C04");
     let mut batch = vec![];
 
     if let Some(text) = &o.replay {
         rep.sample(J::s(text.clone()));
+        if let Some(h) = text.strip_prefix("history ") {
+            history_layer(o, &mut model, &mut rep, Some(h));
+            return rep;
+        }
         if let Some(c) = Case::parse(text) {
             let mut rig = Rig::new(c.m128);
             check_case(&mut model, &mut rig, &c, &mut rep, &mut batch);
@@ -565,5 +643,6 @@ interesting T-states, the bus-cycle trace taken from the real Z80 on a recording
         }
         flush(&mut model, &mut rep, &mut batch);
     }
+    history_layer(o, &mut model, &mut rep, None);
     rep
 }
